@@ -19,6 +19,16 @@ _MC = ("TLC explores the bounded %s specification exhaustively (design check of 
        "real bio-rd objects with the complete projected state compared after each step")
 
 CHECKS = {
+    "C01": {
+        "text": _MC % "PrefixMap" + ". The lookups (Get, LPM, GetLonger, Dump, count) are defined on the abstract table exactly as the "
+                "property reads and TLC checks their mutual laws on every reachable table; behaviours = every insertion order of up to "
+                "4-5 distinct prefixes (trie shape), one witness per transition of the full-action graph, and random histories; after "
+                "the last step (every step for random histories) all lookups are issued for EVERY prefix of the 4-bit universe, stored "
+                "or not, under 5 (quick) / 11 (thorough) embeddings of the universe into IPv4/IPv6 around bits 0, 8, 28-32, 60-66, 124-128; "
+                "also through the Loc-RIB wrapper.",
+        "note": "Trusted: TLC, the embedding (inverse checked), 4-bit universe x embeddings as a sufficient scope for trie shape; no path added twice to one prefix.",
+        "technique": "TLA+ spec PrefixMap + TLC; behaviour replay against routingtable.RoutingTable and locRIB.LocRIB",
+    },
     "C15": {
         "text": "BitNet defines containment, equality, supernet, base address, validity, bit-at-position and address order on sets of "
                 "bit positions. TLC checks the algebra of the definitions on every pair (and third element) of width-4/5 prefixes "
